@@ -297,6 +297,17 @@ theorem tick_pres (st : St) : Pres st (tick st).1 := by
   · apply foldl_onTimeout_pres
     exact fun k a => ⟨k, a⟩
 
+theorem sockEvent_pres (st : St) (a : KAns) : Pres st (sockEvent st a).1 := by
+  rcases sockEvent_cases st a with e | ⟨d, e⟩
+  · rw [e]; exact Pres.refl st
+  · rw [e]; exact onRecv_pres st _
+
+theorem sockRun_pres : ∀ (as : List KAns) (st : St), Pres st (sockRun st as).1 := by
+  intro as
+  induction as with
+  | nil => intro st; exact Pres.refl st
+  | cons a as ih => intro st; exact (sockEvent_pres st a).trans (ih _)
+
 theorem step_pres (st : St) (op : Op) : Pres st (step st op).1 := by
   cases op with
   | servers n => exact fun k a => ⟨k, a⟩
@@ -307,6 +318,9 @@ theorem step_pres (st : St) (op : Op) : Pres st (step st op).1 := by
   | recv d => exact onRecv_pres st d
   | net d => exact onRecv_pres st (d.take 4096)
   | tick => exact tick_pres st
+  | lookupN name sid send => exact lookup_pres st sid
+  | sock as => exact sockRun_pres as st
+  | recvAt k d => exact onRecv_pres st d
 
 theorem run_pres : ∀ (ops : List Op) (st : St), Pres st (run st ops).1 := by
   intro ops
@@ -398,6 +412,17 @@ theorem onRecv_called (st : St) (d : List Byte) : CalledOK st (onRecv st d).1 (o
     · exact applyReply_called _ _
     · exact CalledOK.refl st
 
+theorem sockEvent_called (st : St) (a : KAns) : CalledOK st (sockEvent st a).1 (sockEvent st a).2 := by
+  rcases sockEvent_cases st a with e | ⟨d, e⟩
+  · rw [e]; exact CalledOK.refl st
+  · rw [e]; exact onRecv_called st _
+
+theorem sockRun_called : ∀ (as : List KAns) (st : St), CalledOK st (sockRun st as).1 (sockRun st as).2 := by
+  intro as
+  induction as with
+  | nil => intro st; exact CalledOK.refl st
+  | cons a as ih => intro st; exact (sockEvent_called st a).trans (ih _)
+
 theorem step_called (st : St) (op : Op) : CalledOK st (step st op).1 (step st op).2.events := by
   cases op with
   | servers n => simp [CalledOK, step]
@@ -414,6 +439,9 @@ theorem step_called (st : St) (op : Op) : CalledOK st (step st op).1 (step st op
     · exact CalledOK.refl st
     · apply foldl_onTimeout_called
       simp [CalledOK]
+  | lookupN name sid send => simp [step, CalledOK, lookup_called]
+  | sock as => exact sockRun_called as st
+  | recvAt k d => exact onRecv_called st d
 
 theorem run_called : ∀ (ops : List Op) (st : St), CalledOK st (run st ops).1 (allEvents (run st ops).2) := by
   intro ops
@@ -625,6 +653,17 @@ theorem foldl_onTimeout_inv (items : List Token) :
       · exact finish_inv { status := .timeout } h hf
       · exact h
 
+theorem sockEvent_inv {st : St} (a : KAns) (h : Inv st) : Inv (sockEvent st a).1 := by
+  rcases sockEvent_cases st a with e | ⟨d, e⟩
+  · rw [e]; exact h
+  · rw [e]; exact onRecv_inv _ h
+
+theorem sockRun_inv : ∀ (as : List KAns) {st : St}, Inv st → Inv (sockRun st as).1 := by
+  intro as
+  induction as with
+  | nil => intro st h; exact h
+  | cons a as ih => intro st h; exact ih (sockEvent_inv a h)
+
 theorem step_inv {st : St} (op : Op) (h : Inv st) : Inv (step st op).1 := by
   cases op with
   | servers n => (apply inv_congr (st := st) ?_ ?_ ?_ ?_ ?_ h <;> rfl)
@@ -641,6 +680,9 @@ theorem step_inv {st : St} (op : Op) (h : Inv st) : Inv (step st op).1 := by
     · exact h
     · apply foldl_onTimeout_inv
       (apply inv_congr (st := st) ?_ ?_ ?_ ?_ ?_ h <;> rfl)
+  | lookupN name sid send => exact lookup_inv sid h
+  | sock as => exact sockRun_inv as h
+  | recvAt k d => exact onRecv_inv d h
 
 theorem run_inv : ∀ (ops : List Op) (st : St), Inv st → Inv (run st ops).1 := by
   intro ops
